@@ -33,6 +33,10 @@ type Program struct {
 	repoDir         string
 	allFuncs        []*ssa.Function
 	byName          map[string]*ssa.Function // every SSA function (including synthetic thunks) by String()-suffix name
+	// contracts whose function can no longer be found in the tree (renamed, a keyed closure that now calls
+	// something else): reported as the "reach" obligation of that contract, for the properties it serves, instead
+	// of failing the whole load
+	unbound map[string]string
 }
 
 const modulePath = "zombiezen.com/go/commonmark"
@@ -167,7 +171,11 @@ func loadProgram(repo string, overlay map[string][]byte) (*Program, error) {
 			}
 		}
 		if len(found) != 1 {
-			return nil, fmt.Errorf("contract %s: %d function literals call %v (need exactly one)", k, len(found), wants)
+			if p.unbound == nil {
+				p.unbound = map[string]string{}
+			}
+			p.unbound[k] = fmt.Sprintf("%d function literals call %v (the contract is keyed by exactly one)", len(found), wants)
+			continue
 		}
 		delete(p.funcs, p.funcKeys[found[0]])
 		p.funcs[k] = found[0]
@@ -176,7 +184,12 @@ func loadProgram(repo string, overlay map[string][]byte) (*Program, error) {
 	// every contract must name an existing function
 	for _, k := range p.contracts.Order {
 		if _, ok := p.funcs[k]; !ok {
-			return nil, fmt.Errorf("contract for unknown function %s", k)
+			if p.unbound == nil {
+				p.unbound = map[string]string{}
+			}
+			if _, dup := p.unbound[k]; !dup {
+				p.unbound[k] = "no function of this name in the tree"
+			}
 		}
 	}
 	return p, nil
